@@ -132,6 +132,9 @@ class SimStreamingBody:
             out = self._data[self._pos:self._pos + n]
             self._pos += n
             rec['delivered'] = self._pos
+            if n:
+                s3.world.on_bytes_moved('down', (rec['key'], rec.get('Range'),
+                                                 rec.get('attempt')), n)
             if not out and self._pos >= len(self._data):
                 rec['stream_outcome'] = 'eof'
                 s3._stream_done(rec)
@@ -360,6 +363,8 @@ class SimS3:
                     sim.point('s3.body.read')
                     b = wrapped.read(n)
                     reads.append((attempt, len(b)))
+                    if b:
+                        self.world.on_bytes_moved('up', (key, part), len(b))
                     if not b:
                         break
                     data += b
